@@ -103,6 +103,16 @@ claimed = {
          "(a defect found here - a fifth length byte let an unauthenticated peer request a 32 GiB buffer - was fixed); announced packet sizes are within 2..268435460; oversized requests to the ring fail instead of blocking (C15). "
          "Panics elsewhere are confined by the recover of the connection's own goroutines (not verified). Assumed: net.Conn.Read returns 0..len bytes."),
    design='DESIGN.md §4 C05', technique='zero-annotation safety VCs + allocation bound + loop invariants over go/ssa, z3/cvc5 (govc)'),
+ 'C08': dict(level='proof',
+   text=("Contract-based deductive proof of the mechanisms the property rests on (core; the composition over publish/subscribe histories and schedules is argued, not machine-checked). "
+         "(1) onPublish and Server.Publish pass a PUBLISH to the retained store exactly when its retain flag is set (ghost log of Retain calls). (2) MemTopics.Retain, under the store's lock on every path, clears the topic when the payload is empty and stores the message otherwise. "
+         "(3) rnode.rinsert, at the node of the topic, stores a NEW message object decoded over a NEW buffer holding the message's encoding, with flags, topic and payload byte-identical to the published message (encode/decode round trip proved with the C03 wire contracts), and writes nothing that existed before the call - so message objects "
+         "handed out by earlier lookups keep their content whatever is retained later (a defect found here: the old object and buffer were rewritten in place - fixed); a failed insert keeps the previous message; rremove drops the node's message; both descend with exactly the remaining levels into the child for the next level (one-step contracts). "
+         "(4) PublishMessage.Clone (the QoS-downgraded copy sent to a new subscription) is a fresh object over a fresh buffer with identical flags, topic and payload, and leaves the stored message untouched. "
+         "(5) The broker-side subscriber callback (onpub closure) forwards with the retain flag cleared and restores the flag of the shared message afterwards. "
+         "NOT machine-checked: the lookup side of the retained trie (rmatch, allRetained iterate over Go maps) and that unrelated trie nodes are untouched by a recursive insert - covered by the BOUNDED stand-in shared with C06 (labelled bounded, never counted as proved: retained insert/replace/clear for every pair of topics against every filter of 1..3 levels); "
+         "the SUBSCRIBE handler that sends the retained messages is under a trusted contract pinned to its body (see C07)."),
+   design='DESIGN.md §4 C08', technique='contracts (one-step contracts on the recursive trie functions, map type invariant, ghost log, frame checking) with VCs over go/ssa discharged by z3/cvc5 (govc); bounded exhaustive stand-in for the trie lookups'),
  'C04': dict(level='proof',
    text=("Contract-based deductive proof: every index, slice (also against len, not only cap: 'strictslice'), nil, conversion and overflow obligation in every Decode path is generated with no annotation and discharged; "
          "contracts add 0<=n<=len(src), every returned field lies within src[:n], loop variants (termination), and acceptance of every well-formed packet (for SUBSCRIBE/UNSUBSCRIBE against a caller-chosen ghost entry chain). Unbounded in input length and topic count."),
@@ -113,7 +123,6 @@ na_reason = 'not yet claimed: contracts for this property are still being writte
 na = {
  'C16': "not applicable to contract-based deductive verification: bounded-time teardown and goroutine exit are liveness statements over all schedules of at least four goroutines per connection; no pre/postcondition of a function states them. The safety premises they rest on (lock balance on every path, Close wakes both sides, no wait that can never end) are proved under C15, and teardown's single-shot behaviour under C09.",
  'C18': "not applicable to contract-based deductive verification: data-race freedom is a happens-before property of every pair of accesses in every schedule; a function contract cannot quantify over what other goroutines do. Related per-function facts are proved elsewhere (the write mutex discipline under C17, lock balance under C15, the ack queue's operations under its mutex under C13).",
- 'C08': "not claimed: the retained-message store is a trie of Go maps traversed recursively and by map iteration (rinsert, rremove, rmatch, allRetained), which the verification-condition generator does not model, and the handler that delivers retained messages (processSubscribe) could not be brought within reach either (DESIGN.md sections 10 and 0a). Only the helper facts proved for other properties apply (Clone result is a fresh object - trusted; SetRetain/SetQoS change only the flag bits).",
  'C20': "not claimed: the client API (Client.Connect, subscribe/unsubscribe closures) was not put under contract in the time available; its building blocks are covered by other checks (CONNACK decoding C03/C04, the ack dispatch and completion callbacks C12, fan-out to the callback C01).",
 }
 
